@@ -356,6 +356,9 @@ var fileOps = []fsx.Op{
 	{K: "Open", P: "/w/ab", Flag: os.O_RDONLY, H: 2}, {K: "FReadDir", H: 2, N: -1}, {K: "FStat", H: 2}, {K: "FClose", H: 2}, {K: "FStat", H: 1}, {K: "FReadDir", H: 1, N: -1},
 	{K: "Lchown", P: "/w/sl", Uid: 1001, Gid: 1002}, {K: "Lchown", P: "/w/sl", Uid: 0, Gid: 0}, {K: "Lstat", P: "/w/sl"}, {K: "ReadDir", P: "/w"}, {K: "Readlink", P: "/w/sl"},
 	{K: "Chown", P: "/w/a/x", Uid: 1001, Gid: -1}, {K: "Lstat", P: "/w/a/x"},
+	// the working directory of a MemFS worker belongs to its own view: setting it reads the shared tree (as that view's user)
+	{K: "FChdir", H: 1}, {K: "FChdir", H: 2}, {K: "Chdir", P: "/w/a"}, {K: "Chdir", P: "/w/ab"}, {K: "Chdir", P: "/w"}, {K: "Getwd"},
+	{K: "Chmod", P: "/w/a", Perm: 0o711}, {K: "Chmod", P: "/w/a", Perm: 0o777}, {K: "Chown", P: "/w/ab", Uid: 1001, Gid: 1002}, {K: "Chown", P: "/w/ab", Uid: 0, Gid: 0}, {K: "FChmod", H: 2, Perm: 0o755},
 	// the handle shared by two goroutines (slot 9)
 	{K: "FRead", H: 9, N: 3}, {K: "FWrite", H: 9, Data: "s"}, {K: "FSeek", H: 9, Off: 0, Whence: 0}, {K: "FStat", H: 9}, {K: "FReadAt", H: 9, N: 2, Off: 0}, {K: "FWriteAt", H: 9, Data: "S", Off: 1}, {K: "FTruncate", H: 9, Size: 3}, {K: "FName", H: 9},
 }
@@ -405,6 +408,9 @@ func TestCheck(t *testing.T) {
 						o := fileOps[rapid.IntRange(0, len(fileOps)-1).Draw(t, "fop")]
 						if o.H == 9 && !strings.HasSuffix(kind, "-sharedhandle") {
 							continue
+						}
+						if (o.K == "Chdir" || o.K == "FChdir") && !strings.HasPrefix(kind, "MemFS") {
+							continue // one shared OrefaFS instance has one working directory: a setter, not issued concurrently
 						}
 						ops = append(ops, o)
 						continue
